@@ -958,6 +958,14 @@ impl TreeMachine {
                 if cd.is_ok() != v.is_ok() {
                     self.fail("C14", "validate() and check_invariants_detailed() disagree".into());
                 }
+                if !self.damaged && (!ci || cd.is_err() || vo.is_err()) {
+                    self.fail("C14", format!(
+                        "a validator rejects a map built through the map-level API only: check_invariants()={} detailed={} validate_for_operation={}",
+                        ci, detailed_kind(&cd), if vo.is_ok() { "ok" } else { "err" }));
+                    if vo.is_err() {
+                        self.fail("C10", "validate_for_operation failed on a map built through the map-level API".into());
+                    }
+                }
                 if let Some(kind) = self.damage_kind.clone() {
                     self.ev(&format!("damage:{}", kind));
                     let node_level = matches!(kind.as_str(), "unsorted" | "duplicate" | "count-mismatch" | "over-capacity" | "underfull" | "empty-node" | "out-of-interval" | "arity" | "dangling-child");
